@@ -123,9 +123,14 @@ func ite(c, a, b string) string {
 	return app("ite", c, a, b)
 }
 
+func isLitTerm(a string) bool { return strings.HasPrefix(a, "#x") || strings.HasPrefix(a, "#b") }
+
 func eq(a, b string) string {
 	if a == b {
 		return "true"
+	}
+	if isLitTerm(a) && isLitTerm(b) {
+		return "false"
 	}
 	return app("=", a, b)
 }
